@@ -8,7 +8,7 @@ def init_heap(sc, tag="@pre"):
     return {k: z3.Const(k + tag, z3.ArraySort(Ref, sort_of(kind))) for k, kind in sc.fields.items()}
 
 
-def emit(run, ex, fq, hyps=(), rp=None, extra_meta=None, label=None):
+def emit(run, ex, fq, hyps=(), rp=None, extra_meta=None, label=None, retries=0):
     """turn the executor's side obligations (safety, loop invariants, call preconditions) into run obligations"""
     seen = {}
     for nm, pc, goal, meta in ex.obls:
@@ -19,7 +19,10 @@ def emit(run, ex, fq, hyps=(), rp=None, extra_meta=None, label=None):
         m = dict(extra_meta or {})
         if rp:
             m["replay"] = rp
-        run.add(Obl(f"{label or fq}/{nm}", list(hyps) + pc + facts + str_distinct(), goal, fn=fq, meta=m))
+        o = Obl(f"{label or fq}/{nm}", list(hyps) + pc + facts + str_distinct(), goal, fn=fq, meta=m)
+        if retries:
+            o.retries = retries
+        run.add(o)
 
 
 def frame_goal(q, H0, except_=()):
